@@ -377,5 +377,6 @@ MUTANTS = [
     M("render-always", IT, "RenderIterator._iterate", "                if not frame or frame_details != (", "                if True or frame_details != (", {"R4"}),
     M("stale-size-hash", CM, "ImageIterator._animate", "                            *fmt,\n                        )\n                        cache[n] = (frame, hash(image.rendered_size))", "                            *fmt,\n                        )\n                        cache[n] = (frame, size_hash)", {"R5"}),
     M("hash-before-render", CM, "ImageIterator._animate", "                    if hash(image.rendered_size) != size_hash:", "                    if size_hash is None:", {"R5"}),
+    M("store-first-loop-only", IT, "RenderIterator._iterate", "                    if cache:\n                        cache[frame_no] = (", "                    if cache and self.loop == self.loops:\n                        cache[frame_no] = (", {"R4"}),
     M("twin-rename-entry", IT, "RenderIterator._iterate", "cache_entry", "entry", twin=True, count=0),
 ]
